@@ -19,7 +19,7 @@ import subprocess
 import sys
 import time
 
-VERIF = os.environ.get("VERIF_DIR", "/verif")
+VERIF = os.environ.get("VERIF_DIR") or os.path.dirname(os.path.dirname(os.path.abspath(__file__)))
 REPO = os.environ.get("VERIF_REPO", "/repo")
 BUILD = os.path.join(VERIF, ".build")
 MODPATH = "github.com/pion/webrtc/v4"
